@@ -23,7 +23,7 @@ Theorem C13_stream_discipline : forall W evict l out log k, ssorted l = true ->
   (forall S, (forall e, In e l -> ukey e = k -> seq e < S) ->
      match kents k l with
      | [] => newest k S out = None
-     | x :: _ => if is_value x then newest k S out = Some x
+     | x :: _ => if negb (is_tomb x) then newest k S out = Some x
                  else visible (newest k S out) = None
      end).
 Proof. exact cstream_weak_top. Qed.
@@ -68,3 +68,30 @@ Example C13_nonvacuous :
   ssorted l = true /\ alternating (kents a (l ++ [mkE a 0 Value [0]])) = true /\
   fst (run_stream 1000 false no_filter l) = [mkE a 1 WeakTomb []].
 Proof. vm_compute. repeat split; reflexivity. Qed.
+
+(** UNBOUNDED, tree level: in the model's tree state machine, from the empty tree and for
+    every operation list (writes, rotations, flushes, compactions whose choice keeps the
+    versions of k contiguous, moves, history GC), a key whose write history alternates
+    between weak deletes and values reads, at every snapshot above all writes, exactly as
+    the ordered map says - i.e. as if remove had been called instead of remove_weak. *)
+From LsmV Require Import Model.Machine Proofs.Machine Model.Snapshot Model.History Proofs.Snapshot Model.Cert.
+Theorem C13_machine_weak_view : forall ops k, mops_ok minit ops = true -> wops_ok k minit ops ->
+  let st := mrun minit ops in alternating (kents k (wlog st)) = true ->
+  forall sv, latest (hist (hs st)) = Some sv -> forall S, ctr (hs st) <= S ->
+  spec_get (content sv) k S = spec_get (wlog st) k S.
+Proof. exact machine_weak_view. Qed.
+Print Assumptions C13_machine_weak_view.
+
+(** the contiguity side condition on compaction choices is necessary: leaving an older
+    version of the key outside the compaction lets an old value come back *)
+Theorem C13_contiguity_necessary : exists ops k, mops_ok minit ops = true /\
+  alternating (kents k (wlog (mrun minit ops))) = true /\
+  wops_ok_b k minit ops = false /\
+  mget (fun _ _ => true) (mrun minit ops) k <> None /\
+  spec_get (wlog (mrun minit ops)) k SEQ_MAX = None.
+Proof.
+  exists WeakExample.bad_ops, WeakExample.ka.
+  destruct WeakExample.weak_without_contiguity_refuted as (A & B & C & D & E).
+  repeat split; auto. rewrite D. discriminate.
+Qed.
+Print Assumptions C13_contiguity_necessary.
